@@ -18,6 +18,11 @@ type c19Case struct {
 	Img     *gen.Img // the picture (Kind/Place ignored; presentations are derived)
 	Opts    *gen.Opts
 	Variant []c19Variant
+	// StdKind != "": the picture is first stored in this standard-library image type (which may round
+	// or subsample it); the colours that image yields through At() are then "the picture", and the
+	// std-typed image itself, in the placements of StdVariant, is one more presentation of it
+	StdKind    string
+	StdVariant []c19Variant
 }
 
 type c19Variant struct {
@@ -36,6 +41,17 @@ func genC19(t *rapid.T) *c19Case {
 		c.Opts = gen.DrawLosslessOpts(t)
 	} else {
 		c.Opts = gen.DrawLossyOpts(t, false)
+	}
+	if rapid.IntRange(0, 2).Draw(t, "std") == 0 {
+		c.StdKind = rapid.SampledFrom(gen.StdKinds).Draw(t, "stdKind")
+		for i := rapid.IntRange(1, 3).Draw(t, "nStd"); i > 0; i-- {
+			v := c19Variant{Kind: c.StdKind, Place: rapid.SampledFrom([]string{"tight", "minoff", "sub", "sub"}).Draw(t, "sPlace")}
+			// any origin parity: chroma sharing of subsampled types follows absolute coordinates
+			v.OX, v.OY = rapid.IntRange(0, 5).Draw(t, "sox"), rapid.IntRange(0, 5).Draw(t, "soy")
+			v.PadR, v.PadB = rapid.IntRange(0, 3).Draw(t, "spr"), rapid.IntRange(0, 3).Draw(t, "spb")
+			v.Garbage = rapid.Uint64().Draw(t, "sg")
+			c.StdVariant = append(c.StdVariant, v)
+		}
 	}
 	opaque := !c.Img.HasTransparency()
 	n := rapid.IntRange(3, 6).Draw(t, "nVariants")
@@ -74,7 +90,42 @@ func backingHash(s *gen.Img, img image.Image) [32]byte {
 	return [32]byte{}
 }
 
+// c19StdPresentation encodes the std-typed image of variant v and returns its bytes together with
+// the colours it yields (read through At).
+func c19StdImage(orig *gen.Img, v c19Variant) image.Image {
+	s := *orig
+	s.Kind, s.Place, s.OX, s.OY, s.PadR, s.PadB, s.Garbage = v.Kind, v.Place, v.OX, v.OY, v.PadR, v.PadB, v.Garbage
+	return s.Build()
+}
+
 func checkC19(c *c19Case, o *core.Obs) error {
+	if c.StdKind != "" && len(c.StdVariant) > 0 {
+		// each std-typed presentation must encode exactly like a tight NRGBA holding the colours it yields
+		for _, v := range c.StdVariant {
+			img := c19StdImage(c.Img, v)
+			truth := gen.Truth(img)
+			n := image.NewNRGBA(image.Rect(0, 0, c.Img.W, c.Img.H))
+			for i, p := range truth {
+				n.Pix[i*4], n.Pix[i*4+1], n.Pix[i*4+2], n.Pix[i*4+3] = p.R, p.G, p.B, p.A
+			}
+			flushPools()
+			want, err1 := encodeImg(n, c.Opts)
+			flushPools()
+			got, err2 := encodeImg(img, c.Opts)
+			if err1 != nil || err2 != nil {
+				return fmt.Errorf("Encode failed: nrgba=%v %s=%v", err1, v.Kind, err2)
+			}
+			if !bytes.Equal(want, got) {
+				return fmt.Errorf("lossless=%v: a %s image (%s, origin %d,%d) gives different bytes than an *image.NRGBA at the origin holding the colours it yields (len %d vs %d, first diff at %d)",
+					c.Opts.Lossless, v.Kind, v.Place, v.OX, v.OY, len(got), len(want), firstDiff(want, got))
+			}
+			if again := gen.Truth(img); fmt.Sprint(again) != fmt.Sprint(truth) {
+				return fmt.Errorf("Encode modified the caller's %s image", v.Kind)
+			}
+			o.Label("variant=" + v.Kind + "/" + v.Place)
+			o.Labelf("std_origin_odd=%v", (v.Place != "tight") && (v.OX&1 == 1 || v.OY&1 == 1))
+		}
+	}
 	base := *c.Img
 	base.Kind, base.Place = "nrgba", "tight"
 	flushPools()
